@@ -70,7 +70,7 @@ PRE = ["self._pending_commits == 0"]
 
 contract(f"{IDB}::IdentityDatabase.insert_token", "insert_token.execute-then-commit",
          vars={"self": db(f"{IDB}::IdentityDatabase"), "pk": PK, "t": TOKEN}, requires=PRE,
-         call="self.insert_token(pk, t)", raises=[],
+         call="self.insert_token(pk, t)", raises=[], all_params=True,
          ensures=["insert_trace_ok(trace(), 'Tokens', ['public_key', 'previous_token_hash', 'signature', 'content_hash', 'content'],"
                   " (pk.ec.bin, t.previous_token_hash, t.signature, t.content_hash, t.content))",
                   "all(c in schema_columns(self.get_schema(1), 'Tokens') for c in columns_of(trace()[0].args[0]))"],
@@ -78,14 +78,14 @@ contract(f"{IDB}::IdentityDatabase.insert_token", "insert_token.execute-then-com
 
 contract(f"{IDB}::IdentityDatabase.insert_metadata", "insert_metadata.execute-then-commit",
          vars={"self": db(f"{IDB}::IdentityDatabase"), "pk": PK, "m": META}, requires=PRE,
-         call="self.insert_metadata(pk, m)", raises=[],
+         call="self.insert_metadata(pk, m)", raises=[], all_params=True,
          ensures=["insert_trace_ok(trace(), 'Metadata', ['public_key', 'token_pointer', 'signature', 'serialized_json_dict'],"
                   " (pk.ec.bin, m.token_pointer, m.signature, m.serialized_json_dict))",
                   "all(c in schema_columns(self.get_schema(1), 'Metadata') for c in columns_of(trace()[0].args[0]))"])
 
 contract(f"{IDB}::IdentityDatabase.insert_attestation", "insert_attestation.execute-then-commit",
          vars={"self": db(f"{IDB}::IdentityDatabase"), "pk": PK, "ak": PK, "a": ATT}, requires=PRE,
-         call="self.insert_attestation(pk, ak, a)", raises=[],
+         call="self.insert_attestation(pk, ak, a)", raises=[], all_params=True,
          ensures=["insert_trace_ok(trace(), 'Attestations', ['public_key', 'authority_key', 'metadata_pointer', 'signature'],"
                   " (pk.ec.bin, ak.ec.bin, a.metadata_pointer, a.signature))",
                   "all(c in schema_columns(self.get_schema(1), 'Attestations') for c in columns_of(trace()[0].args[0]))"])
@@ -94,7 +94,7 @@ contract(f"{WDB}::AttestationsDB.insert_attestation", "wallet.insert_attestation
          vars={"self": db(f"{WDB}::AttestationsDB", db_name=EXPR("'ProvingAttestations'")), "h": BYTES, "fmt": STR,
                "att": EFFECT("attestation", serialize_private={"returns": BYTES}),
                "sk": EFFECT("secret_key", public_key={"returns": ANY}, serialize={"returns": BYTES})},
-         requires=PRE, call="self.insert_attestation(att, h, sk, fmt)", raises=[],
+         requires=PRE, call="self.insert_attestation(att, h, sk, fmt)", raises=[], all_params=True,
          ensures=["len(calls('cursor.execute')) == 1 and len(calls('connection.commit')) == 1",
                   "trace()[len(trace()) - 1].name == 'connection.commit'",
                   "columns_of(calls('cursor.execute')[0].args[0]) == ['hash', 'blob', 'key', 'id_format']",
@@ -132,3 +132,24 @@ contract(f"{IDB}::IdentityDatabase.check_database", "check_database.idempotent-s
                   "calls('cursor.executescript')[0].args[0].count('CREATE TABLE') == calls('cursor.executescript')[0].args[0].count('CREATE TABLE IF NOT EXISTS')",
                   "\"DELETE FROM option WHERE key = 'database_version'\" in calls('cursor.executescript')[0].args[0]"],
          note="the schema script can be re-run on an existing file (reopen after a crash) and is committed")
+
+# ---------------------------------------------------------------------------------------------------------------------
+# call sites: the manager stores through the insert_* functions in exactly the form their contracts cover (record arguments only -
+# no extra argument that could defer or suppress the commit), one call per accepted record, in dependency order token -> metadata
+MG = "ipv8/attestation/identity/manager.py"
+DBE = EFFECT("database", insert_token={}, insert_metadata={}, insert_attestation={})
+MDE = OBJ("ipv8/attestation/identity/metadata.py::Metadata", token_pointer=BYTES, signature=BYTES, serialized_json_dict=BYTES,
+          verify=CALLABLE("metadata.verify", returns=BOOL, raises=()))
+contract(f"{MG}::PseudonymManager.add_credential", "add_credential.stores-through-committing-inserts",
+         vars={"TOK": OBJ("ipv8/attestation/tokentree/token.py::Token", previous_token_hash=BYTES, content_hash=BYTES, signature=BYTES,
+                           content=OPT(BYTES), _hash=BYTES_N(32)), "accepted": BOOL, "md": MDE,
+               "self": OBJ(f"{MG}::PseudonymManager", database=DBE, credentials=EXPR("[]"),
+                           tree=OBJ("ipv8/attestation/tokentree/tree.py::TokenTree", public_key=PK, gather_token=CALLABLE("gather_token", returns=EXPR("TOK if accepted else None"), raises=())))},
+         call="self.add_credential(TOK, md)", raises=[],
+         on_effect={"database.insert_token": ["len(args) == 2 and len(ev.kwargs) == 0", "args[1] is TOK", "args[0] is self.tree.public_key"],
+                    "database.insert_metadata": ["len(args) == 2 and len(ev.kwargs) == 0", "args[1] is md",
+                                                 "len(calls('database.insert_token')) == 1"]},
+         ensures=["len(calls('database.insert_token')) == (1 if accepted else 0)",
+                  "implies(result is not None, len(calls('database.insert_metadata')) == 1)"],
+         note="every accepted token / metadata goes through insert_* (each proved above to commit before returning, for every value of "
+              "every parameter it has)")
